@@ -62,12 +62,13 @@ def run_pair(scn, wd, out, variant="plain", text_channel=False):
         os.makedirs(os.path.join(wd, d))
         return ["--cppcheck-build-dir=../" + d], ["../" + d]
 
+    std = ["-q", core.TEXT_TEMPLATE] if scn.get("channel") == "text" else STD
     b, roots = bd_args()
-    ref = core.run_sim(variant, tree_dir, STD + oargs + b + ["-j1"] + units, plan=None, tag="ref")
+    ref = core.run_sim(variant, tree_dir, std + oargs + b + ["-j1"] + units, plan=None, tag="ref")
     res = []
     for i, run in enumerate(scn["subjects"]):
         b, roots = bd_args()
-        r = core.run_sim(variant, tree_dir, STD + oargs + b + exec_args(run) + units, plan=plan_of(run), roots=roots, workdir=wd,
+        r = core.run_sim(variant, tree_dir, std + oargs + b + exec_args(run) + units, plan=plan_of(run), roots=roots, workdir=wd,
                          tag="sub%d" % i)
         out.account(r)
         res.append((run, r))
@@ -121,6 +122,13 @@ def compare_runs(scn, ref, res, out, prop_filter=None, cls="parallel-differs"):
         if ms != mr or not r.xml_ok:
             oa, ob = core.diff_multisets(ms, mr)
             kind = classify_diff(oa, ob) if r.xml_ok else "malformed-output"
+            if r.xml_ok and oa and ob:
+                # do the two sides differ only by cppcheck's own sanitising of non-printable message bytes (\\ooo)?
+                def san(f):
+                    t = "".join(chr(b) if 32 <= b < 127 else "\\%03o" % b for b in f.msg.encode("utf-8", "surrogateescape"))
+                    return core.Finding(f[:4] + (t,) + f[5:])
+                if sorted((repr(san(f)), c) for f, c in oa) == sorted((repr(san(f)), c) for f, c in ob):
+                    kind = "message-bytes-sanitised"
             ids = ",".join(sorted(set(("+" if side == 0 else "-") + f.id for side, lst in enumerate((oa, ob)) for f, _ in lst)))
             out.violate(cls, "%s under %s%s%s" % (kind, run["exec"], " with build dir" if bd else "", exotic_tag(scn["units"])),
                         ["%s vs -j1 (build dir: %s)" % (ex, bd)] + core.fmt_diff(oa, ob, ex, "-j1"), ids=ids)
@@ -149,6 +157,9 @@ def exec_candidates(scn):
     if scn.get("bd"):
         c = copy.deepcopy(scn); c["bd"] = False
         yield c
+    if scn.get("channel") == "text":
+        c = copy.deepcopy(scn); c["channel"] = "xml"
+        yield c
     for i in range(len(scn.get("suppr", []))):
         c = copy.deepcopy(scn); del c["suppr"][i]
         yield c
@@ -171,6 +182,6 @@ def exec_candidates(scn):
 
 
 def describe_exec(scn):
-    return {"units": scn["units"], "opts": gen.flatten_opts(scn.get("opts", {})) + scn.get("suppr", []), "build_dir": bool(scn.get("bd")),
+    return {"units": scn["units"], "opts": gen.flatten_opts(scn.get("opts", {})) + scn.get("suppr", []), "build_dir": bool(scn.get("bd")), "channel": scn.get("channel", "xml"),
             "error_exitcode": scn.get("exitcode"),
             "subjects": [" ".join(exec_args(r)) + "".join(" %s=%s" % (k, r[k]) for k in ("sched", "sel_timeout", "wait_lag", "loadavg") if r.get(k)) for r in scn["subjects"]]}
